@@ -117,6 +117,26 @@ def explore(run, focus, n_random, hosts=("plain",), malformed_rate=0.0, exhausti
         else:
             ops = gen_ops(rng, c, rng.randint(1, nops), q_rate=0.15)
         cases.append((c, ops, "random", getattr(c, "malformed", None)))
+    if focus == "C22":
+        # queries whose answer lies several hundred levels outward of the current state
+        for D in (rng.choice([251, 256, 270]), rng.choice([300, 400])):
+            parent = {i: i - 1 for i in range(1, D + 1)}
+            c = charts.GenChart(D, parent, {i: {} for i in range(1, D + 1)}, {}, nsig=1)
+            ops = [(0, D), (2, 0), (2, rng.randint(1, 3)), (3, rng.randint(1, 3)), (3, 0), (2, D - 1), (1, 0)]
+            cases.append((c, ops, "deep-chain", None))
+            run.count("chain of %d nested states, queries about its outermost states from the innermost" % D)
+    if focus in ("C01", "C03"):
+        # nesting far beyond what a random tree reaches: a chain of ~300 states, one initial transition that jumps ~260-290 levels
+        for D in (rng.choice([280, 300, 320]), rng.choice([266, 270, 275])):
+            parent = {i: i - 1 for i in range(1, D + 1)}
+            c = charts.GenChart(D, parent, {i: {} for i in range(1, D + 1)}, {}, nsig=2)
+            k = rng.randint(2, 6)
+            c.react[1][0] = ("T", k)
+            c.init[k] = D - rng.randint(0, 2)
+            c.react[D][1] = ("T", rng.randint(1, 4))
+            ops = [(0, rng.randint(1, k)), (1, 0), (1, 1)] if focus == "C01" else [(0, k)]
+            cases.append((c, ops, "deep-chain", None))
+            run.count("chain of %d nested states, init jump of %d levels" % (D, c.init[k] - k))
     if exhaustive_n:
         cases += exhaustive_cases(run, exhaustive_n, focus)
     model_out = batch([(c, ops) for c, ops, _, _ in cases], "hsm")
@@ -503,6 +523,120 @@ def explore_fallthrough(run, n):
         run.case(cj, nontrivial=True)
 
 
+def explore_ao_names(run, n):
+    """C23 on the active-object host (oracle only): named and un-named ActiveObjects (an un-named one derives a name by querying its
+    start state), decorated or not; right after start_at returns - before any event - state_name / state_fn name the state the
+    chart settled in (reference: the plain processor on the same chart), and again after one event has been processed"""
+    import miros.activeobject as mao
+    import dsched
+    rng = run.rng
+    for _ in range(n):
+        c = charts.gen_chart(rng, nmax=7)
+        start = rng.randrange(1, c.n + 1)
+        with_init = [i for i in range(1, c.n + 1) if c.init.get(i)]
+        if with_init and rng.random() < 0.7:
+            start = rng.choice(with_init)             # the chart settles below the state it is started at
+        sig = rng.randrange(c.nsig)
+        named = rng.random() < 0.5
+        spied = rng.random() < 0.7 or not named       # (an un-named object asks its start state for its name: only decorated states answer that)
+        ref, _, _ = charts.run_real(c, [(0, start), (1, sig)], host="plain")
+        if len(ref) < 2 or parse(ref[0])["kind"] != "ok" or parse(ref[1])["kind"] != "ok":
+            continue
+        want0, want1 = int(parse(ref[0])["state"]), int(parse(ref[1])["state"])
+        got = {}
+        errors = []
+        with dsched.Installed():
+            sched = dsched.Sched(dsched.round_robin_chooser(), max_steps=6000, trace=False)
+            dsched.Sched.current = sched
+            try:
+                ao = mao.ActiveObject(name="N") if named else mao.ActiveObject()
+                log = []
+                fns = c.build(log, spied=spied)
+
+                def driver():
+                    ao.start_at(fns[start])
+                    got["after_start"] = (getattr(ao, "state_name", None), getattr(getattr(ao, "state_fn", None), "__name__", None))
+                    ao.post_fifo(charts.ev(sig))
+                    me = sched.me()
+                    sched.yield_point("driver.settle", enabled=lambda: all(t is me or t.finished or not sched.is_enabled(t) for t in sched.threads))
+                    got["after_event"] = (getattr(ao, "state_name", None), getattr(getattr(ao, "state_fn", None), "__name__", None))
+                    ao.stop()
+                sched.spawn(driver, (), name="D")
+                sched.run()
+                for t in sched.threads:
+                    if t.error is not None:
+                        errors.append("%s: %s: %s" % (t.name, type(t.error).__name__, t.error))
+            finally:
+                sched.shutdown()
+        cj = case_json(c, [(0, start), (1, sig)], {"host": "active", "named": named, "spied": spied})
+        run.count("active-object host (%s, %s): names after start_at and after an event" % ("named" if named else "un-named", "spied" if spied else "un-spied"))
+        run.traces_validated += 1
+        if errors:
+            run.violate("C23/thread-error", "active object %s: %s" % ("named" if named else "un-named", errors[:2]), cj)
+        else:
+            for when, want in (("after_start", want0), ("after_event", want1)):
+                if when in got and got[when] != ("s%d" % want, "s%d" % want):
+                    run.violate("C23/state_name/active-object/%s" % ("named" if named else "unnamed"),
+                                "%s %s active object: %s state_name / state_fn are %s, the chart is in s%d"
+                                % ("named" if named else "un-named", "spied" if spied else "un-spied",
+                                   "right after start_at(%d) returned" % start if when == "after_start" else "after one event", got[when], want), cj)
+                    break
+        run.case(cj, nontrivial=True)
+
+
+def explore_super_none(run, n, strict=True):
+    """C24, a third slip (oracle only): the handler's final else moves temp.fun to its parent and forgets to return SUPER, so it
+    gives no status to the parent search (and to any event it has no clause for) although the search "works".  A dispatch in
+    which that handler is asked and answers nothing must raise HsmTopologyException, and so must a start_at (strict: the source
+    checks every parent query, translator tag cfg.superGuard); nothing loops or fails otherwise"""
+    rng = run.rng
+    for _ in range(n):
+        c = charts.gen_chart(rng, nmax=8)
+        bad = rng.randrange(1, c.n + 1)
+        stateful = rng.random() < 0.5
+        if stateful:
+            # the slip shows only once the handler's own exit action has run (its answer depends on data that action changes)
+            c.super_none_after_exit = {bad}
+            c.exith[bad] = True
+        else:
+            c.super_none = {bad}
+        start = rng.randrange(1, c.n + 1)
+        if stateful and c.desc(bad) and rng.random() < 0.7:
+            start = rng.choice(c.desc(bad))
+        ops = [(0, start)] + [(1, rng.randrange(c.nsig)) for _ in range(rng.randint(1, 4))]
+        host = rng.choice(["plain", "plain", "instr", "queued"])
+        saved = charts.CALL_LIMIT
+        charts.CALL_LIMIT = 3000
+        c.none_log = []
+        try:
+            out, hsm, fns = charts.run_real(c, ops, host=host, spied=host != "plain" and rng.random() < 0.5)
+        finally:
+            charts.CALL_LIMIT = saved
+        answers = [r.get("none_answers", []) for r in getattr(hsm, "_vp_names", [])]
+        cj = case_json(c, ops, {"host": host, "super_none": [bad], "after_exit": stateful})
+        run.traces_validated += 1
+        last = out[-1]
+        run.count("handler that names its parent but returns no status: " + ("raise" if last.startswith("raise") else last.split(" ")[0].split(":")[0]))
+        if last.startswith("diverge"):
+            run.violate("C24/super-none-diverges", "state %d names its parent without returning a status: op %s never ended (more than 3000 "
+                        "handler calls)" % (bad, ops[len(out) - 1]), cj)
+        elif last.startswith("error"):
+            run.violate("C24/super-none-other-exception", "state %d names its parent without returning a status: op %s ended with %s"
+                        % (bad, ops[len(out) - 1], last.split(" ")[0]), cj)
+        else:
+            for idx, o in enumerate(out):
+                r = parse(o)
+                # the calls of this op in which the handler really returned no status (its own record)
+                asked = [k for _, k in (answers[idx] if idx < len(answers) else [])]
+                if strict and asked and r["kind"] == "ok":
+                    run.violate("C24/no-raise/none-status/%s" % ("dispatch" if ops[idx][0] == 1 else "start_at"),
+                                "state %d gave no status when it was asked %s during %s: the call ended normally (state %s) instead of raising "
+                                "HsmTopologyException" % (bad, asked[:3], "dispatch(E%d)" % ops[idx][1] if ops[idx][0] == 1 else "start_at(%d)" % ops[idx][1],
+                                                          r["state"]), cj_upto(cj, idx))
+                    break
+        run.case(cj, nontrivial=True)
+
+
 def replay(case):
     c = charts.GenChart.from_json(case["case"]["chart"] if "case" in case else case["chart"])
     cc = case.get("case", case)
@@ -510,6 +644,14 @@ def replay(case):
     if "orthogonal" in cc:
         print("two-chart case: re-run the check with the recorded VERIF_SEED; chart A:", cc["chart"], "ops", cc["ops"], "chart B:", cc["orthogonal"],
               "triggers", cc["triggers"])
+        return 0
+    if "super_none" in cc:
+        if cc.get("after_exit"):
+            c.super_none_after_exit = set(cc["super_none"])
+        else:
+            c.super_none = set(cc["super_none"])
+        charts.CALL_LIMIT = 3000
+        print("impl :", charts.run_real(c, ops, host=cc.get("host", "plain"))[0])
         return 0
     if "fallthrough" in cc:
         ft = cc["fallthrough"]
